@@ -1,8 +1,12 @@
 # Per-property configuration of ./check (engines, op counts, Lean modules, fingerprints).
+# C19 borrows the module engines for their `exportimport` op only: their other property oracles are reported by C06/C09/C10/C11/C07
+EXPORT_IMPORT_ONLY = {"quick": {"VERIF_FAIL_FILTER": "export-import"}, "thorough": {"VERIF_FAIL_FILTER": "export-import"}}
+# ... and the owning checks leave export/import failures to C19
+NO_EXPORT_IMPORT = {"quick": {"VERIF_FAIL_EXCLUDE": "export-import"}, "thorough": {"VERIF_FAIL_EXCLUDE": "export-import"}}
 PROPS = {
  "C12": {
   "modules": ["OsmoVerif.Props.C12"],
-  "min_theorems": 40,
+  "min_theorems": 38,
   "fingerprints": ["Osmomath.chop*", "Osmomath.incBasedOnRem*", "Osmomath.assertMaxBitLen", "Osmomath.BigDec_*", "Osmomath.NewBigDecFromStr"],
   "engines": [{"name": "num", "kind": "pure", "n": {"quick": 60000, "thorough": 600000}, "shards": {"quick": 4, "thorough": 16}}],
   "rule": "stratified operand pairs (magnitude class x sign x remainder/tie class) for every modelled BigDec/Dec method; "
@@ -123,10 +127,10 @@ PROPS = {
  },
  "C08": {
   "modules": ["OsmoVerif.Props.C08"],
-  "min_theorems": 30,
+  "min_theorems": 38,
   "fingerprints": ["CL.Keeper_*", "CL.SwapState_*"],
   "engines": [{"name": "clmath", "kind": "pure", "n": {"quick": 30000, "thorough": 400000}, "shards": {"quick": 2, "thorough": 16}},
-              {"name": "cl", "kind": "app", "n": {"quick": 1500, "thorough": 20000}, "shards": {"quick": 4, "thorough": 16}}],
+              {"name": "cl", "kind": "app", "n": {"quick": 1500, "thorough": 20000}, "shards": {"quick": 4, "thorough": 16}, "env": NO_EXPORT_IMPORT}],
   "rule": "cl: histories on one concentrated pool (scaling factor one or 10^27, chosen per history) through the real keeper: create incl. twin and k-fold positions, add, "
           "partial/full withdraw, swaps of both kinds/directions from 1 unit to draining, spread-reward collects by owner and non-owner, transfers, directed sequences "
           "accrue -> partial withdraw / add / transfer -> (swap) -> claim on the same position, incentive records (authorised uptimes 1ns..1d, own denom each, start now or "
@@ -138,9 +142,12 @@ PROPS = {
   "assumptions": ["spread rewards: theorems over the state machine Model/CLFees.lean (= Model/CLPool.lean + accumulator, tick growth-outside, position records), tied to the keeper "
                   "by full-state comparison after every op; proved for all histories: growth-inside = growth while in range (crossings both directions, in-bucket moves, tick "
                   "init/removal), claimable = C15 formula over growth inside, twins, never-in-range, k-fold (raw bound), collect/withdraw/add/transfer neither lose nor duplicate "
-                  "(second claim = 0 proved for scaled pools; scaling factor one: formula only)",
-                  "PARTIAL: the history-level sum bound (claimed + claimable over all positions <= paid in, dust bound) is not a theorem (per-step ingredient and C07 invariant are): "
-                  "decided by the oracles rewards:claimable>paid-in, solvency:spread-balance<claimable, rewards:spread-lost:*",
+                  "(second claim = 0 for both scaling factors)",
+                  "SUM bound proved for all histories (sum_invariant / total_claimable_le_paid_in / spread_reward_solvency): (paid out + sum of claimable) x scale x 1e18 <= paid in x scale x 1e18 "
+                  "+ (messages + positions)/2 x 1e18 raw x raw units (the half units are the half-even MulDec roundings of record settlements), hence paid out + claimable <= paid in for "
+                  "histories of fewer than 2 x scale >= 2e18 messages, under the hypothesis that the claim queries of the state succeed (no overflow/negative-Sub panic; observed always "
+                  "on the keeper: C[..:err] never occurs); total shares = sum of liquidity and second claim = 0 for both scaling factors are theorems",
+                  "PARTIAL: the dust bound in the other direction (balance - claimable <= bound in steps/claims) is not a theorem: oracle rewards:spread-lost:*",
                   "PARTIAL: uptime incentive accumulators and the forfeit rule are not modelled in Lean: decided by the oracles incentives:* on the real keeper"],
   "explanation": "history model FOp/applyF/runF over CLFees.Fees; the pool component of every message is exactly the CLPool operation (C07's Inv carries over); invariant FullInv "
                  "by induction; growth inside expressed as insideI(cur, G, out(lower), out(upper)) with three laws (grow, flip on crossing, keep in bucket) and the fold over the swap "
@@ -148,7 +155,7 @@ PROPS = {
  },
  "C20": {
   "modules": ["OsmoVerif.Props.C20"],
-  "min_theorems": 40,
+  "min_theorems": 38,
   "fingerprints": ["Auth.*"],
   "engines": [{"name": "auth", "kind": "app", "n": {"quick": 24000, "thorough": 240000}, "shards": {"quick": 4, "thorough": 16}}],
   "rule": "histories through the real msg servers of tokenfactory, lockup, concentrated-liquidity and superfluid: factory denoms (incl. admin changes to users / "
@@ -173,7 +180,7 @@ PROPS = {
   "modules": ["OsmoVerif.Props.C06"],
   "min_theorems": 26,
   "fingerprints": [],
-  "engines": [{"name": "lockup", "kind": "app", "n": {"quick": 4000, "thorough": 40000}, "shards": {"quick": 4, "thorough": 16}}],
+  "engines": [{"name": "lockup", "kind": "app", "n": {"quick": 4000, "thorough": 40000}, "shards": {"quick": 4, "thorough": 16}, "env": NO_EXPORT_IMPORT}],
   "rule": "histories of 25-95 transactions: 3 owners (+ a stranger), 3 denominations, 5 durations (two 1ns apart; many locks share a duration key), "
           "monotone block times incl. no advance, +1ns, exactly on / 1ns before an end time; MsgLockTokens (create or add-to-existing), keeper "
           "AddTokensToLockByID (also on unlocking locks), MsgExtendLockup, MsgBeginUnlocking (full, exact, partial -> split, too much, wrong denom, "
@@ -198,7 +205,7 @@ PROPS = {
   "min_theorems": 50,
   "fingerprints": ["CL.*"],
   "engines": [{"name": "clmath", "kind": "pure", "n": {"quick": 40000, "thorough": 500000}, "shards": {"quick": 4, "thorough": 16}},
-              {"name": "cl", "kind": "app", "n": {"quick": 1500, "thorough": 20000}, "shards": {"quick": 4, "thorough": 16}}],
+              {"name": "cl", "kind": "app", "n": {"quick": 1500, "thorough": 20000}, "shards": {"quick": 4, "thorough": 16}, "env": NO_EXPORT_IMPORT}],
   "rule": "clmath: stratified (liquidity, sqrt-price pairs from real ticks, remaining amounts around the amount needed to reach the target, all authorised spread factors) for "
           "amount deltas, next-price functions and the four within-bucket step functions; cl: histories on one concentrated pool with swaps of both kinds/directions from 1 unit "
           "to draining over overlapping/nested/abutting/gapped positions; distinct = distinct op lines",
@@ -234,7 +241,7 @@ PROPS = {
   "modules": ["OsmoVerif.Props.C07"],
   "min_theorems": 19,
   "fingerprints": ["CL.*"],
-  "engines": [{"name": "cl", "kind": "app", "n": {"quick": 2000, "thorough": 30000}, "shards": {"quick": 4, "thorough": 16}}],
+  "engines": [{"name": "cl", "kind": "app", "n": {"quick": 2000, "thorough": 30000}, "shards": {"quick": 4, "thorough": 16}, "env": NO_EXPORT_IMPORT}],
   "rule": "histories on one concentrated pool through the real keeper (create over overlapping/nested/abutting/gapped ranges incl. exactly on the current tick and at the range "
           "ends, add, partial/full withdraw, swaps of both kinds/directions from 1 unit to draining, transfers); the bookkeeping oracle runs after EVERY op; distinct = distinct op lines",
   "trusted_base": ["tick conversions as proved in C14/C14Mono", "osmomath arithmetic as proved in C12"],
@@ -247,7 +254,7 @@ PROPS = {
   "modules": ["OsmoVerif.Props.C10"],
   "min_theorems": 15,
   "fingerprints": ["Twap.*"],
-  "engines": [{"name": "twap", "kind": "app", "n": {"quick": 5000, "thorough": 40000}, "shards": {"quick": 4, "thorough": 16}}],
+  "engines": [{"name": "twap", "kind": "app", "n": {"quick": 5000, "thorough": 40000}, "shards": {"quick": 4, "thorough": 16}, "env": NO_EXPORT_IMPORT}],
   "rule": "histories = a fresh balancer (2 or 3 assets; random / unit / power-of-two / extreme balances and weights) or concentrated pool, then real ABCI "
           "blocks (FinalizeBlock+Commit) with irregular times (1 ms .. 13 h, sub-millisecond and equal block times, nanosecond parts): swaps, single-asset and "
           "proportional joins, exits, CL position create / withdraw-all (drain) / refill, idle blocks, pruning passes armed through the epoch hook with keep "
@@ -294,7 +301,7 @@ PROPS = {
   "modules": ["OsmoVerif.Props.C09"],
   "min_theorems": 17,
   "fingerprints": ["Incentives.*"],
-  "engines": [{"name": "incentives", "kind": "app", "n": {"quick": 20000, "thorough": 300000}, "shards": {"quick": 4, "thorough": 16}}],
+  "engines": [{"name": "incentives", "kind": "app", "n": {"quick": 20000, "thorough": 300000}, "shards": {"quick": 4, "thorough": 16}, "env": NO_EXPORT_IMPORT}],
   "rule": "histories = one chain state each: 9 pool-owned empty perpetual gauges (imported as creategauge lines) + random lock gauges (perpetual / 1-6 epochs, "
           "2 lock denoms, the chain's lockable durations, 1-3 of 4 reward denoms incl. the base denom, \"stake\" and two pool-priced ones, amounts from the "
           "spam range to 1e8, start 2h before / at / 30min, exactly 1h, 1h+1ns, 1-4h after now, rejected variants), top-ups of any id, 3 lock owners locking / "
@@ -345,7 +352,7 @@ PROPS = {
   "modules": ["OsmoVerif.Props.C11"],
   "min_theorems": 25,
   "fingerprints": [],
-  "engines": [{"name": "superfluid", "kind": "app", "n": {"quick": 20000, "thorough": 200000}, "shards": {"quick": 4, "thorough": 16}}],
+  "engines": [{"name": "superfluid", "kind": "app", "n": {"quick": 20000, "thorough": 200000}, "shards": {"quick": 4, "thorough": 16}, "env": NO_EXPORT_IMPORT}],
   "rule": "history 0 of every shard is the scripted witness of the recorded findings; then random histories: 2-3 bonded validators (+1 address that "
           "is no validator), 3 owners, 1-2 superfluid-enabled share denoms (classic gamm pools; a concentrated pool's full-range shares in about a "
           "third of the histories) + 1 pool that is not enabled, risk factor in {0, .05, .25, 1/3, .5, .999..., 1}, multipliers k/2, k/3, tiny, large, "
@@ -374,10 +381,20 @@ PROPS = {
                  "by differential run of the complete state after every op.",
  },
  "C19": {
+  # Props.C19 imports the per-module genesis models and proofs added for the export/import half:
+  # Model/{Lockup,Incentives,Twap,Superfluid,CLPool}Genesis, Proofs/{LockupGenesisSim,LockupGenesisOps,LockupGenesis,
+  # IncentivesGenesisWF,IncentivesGenesis,IncentivesGenesisRun,TwapGenesis,SuperfluidGenesis,SuperfluidGenesisAccs,CLPoolGenesis}
   "modules": ["OsmoVerif.Props.C19"],
-  "min_theorems": 30,
+  "min_theorems": 60,
   "fingerprints": [],
-  "engines": [{"name": "det", "kind": "app", "n": {"quick": 200, "thorough": 1600}, "shards": {"quick": 4, "thorough": 16}}],
+  "engines": [{"name": "det", "kind": "app", "n": {"quick": 200, "thorough": 1600}, "shards": {"quick": 4, "thorough": 16}},
+              # the module engines of C06/C09/C10/C11/C07 run the op `exportimport` (REAL ExportGenesis -> module store wiped -> REAL
+              # InitGenesis, history continues) at random points and compare every later state line with initGenesis (exportGenesis s)
+              {"name": "lockup", "kind": "app", "n": {"quick": 1500, "thorough": 20000}, "shards": {"quick": 2, "thorough": 8}, "env": EXPORT_IMPORT_ONLY},
+              {"name": "incentives", "kind": "app", "n": {"quick": 8000, "thorough": 150000}, "shards": {"quick": 2, "thorough": 8}, "env": EXPORT_IMPORT_ONLY},
+              {"name": "twap", "kind": "app", "n": {"quick": 2500, "thorough": 20000}, "shards": {"quick": 2, "thorough": 8}, "env": EXPORT_IMPORT_ONLY},
+              {"name": "superfluid", "kind": "app", "n": {"quick": 8000, "thorough": 100000}, "shards": {"quick": 2, "thorough": 8}, "env": EXPORT_IMPORT_ONLY},
+              {"name": "cl", "kind": "app", "n": {"quick": 1000, "thorough": 15000}, "shards": {"quick": 2, "thorough": 8}, "env": EXPORT_IMPORT_ONLY}],
   "rule": "one evaluation = one compared observation: a block (node A vs node B in-process; vs a second OS process with GOMAXPROCS=2/GOGC=25), "
           "a module's exported genesis / a keeper query after export->import, a block of the imported+store-synchronised node. Histories of 40 blocks "
           "(n = blocks per shard) through the real ABCI surface (InitChain/FinalizeBlock with signed txs/Commit): 0-9 txs per block from 12 accounts over "
@@ -392,7 +409,13 @@ PROPS = {
   "assumptions": ["PARTIAL. Proved (all inputs, over the models): sorted-keys / lookup / commutative-fold / distinct-slot-scatter invariance under permutation of a Go map's "
                   "iteration order, instantiated for x/incentives distributionInfo, distributeSyntheticInternal and x/poolmanager TakerFeeSkim; export/import of the modelled "
                   "modules: sum tree (abstraction + all queries preserved, shape may differ), accumulator store (identity), epochs (identity up to CurrentEpochStartHeight, "
-                  "bisimilar afterwards), mint (identity IFF no reduction happened: InitGenesis resets the provisions).",
+                  "bisimilar afterwards), mint (identity IFF no reduction happened: InitGenesis resets the provisions); "
+                  "x/lockup (import is Sim-equivalent to the export on every reachable state, Sim is a bisimulation for all 9 operations and all 13 queries; the "
+                  "accumulation tree of denom \"\" is dropped; InitGenesis swallows the error of InitializeAllLocks), x/incentives (import = activate the due upcoming "
+                  "gauges + forget the finished ones, exactly; the imported chain follows the exporter through every later history except top-ups of gauges finished "
+                  "at export time), x/twap (identity, or a PANIC when Validate rejects a record the chain itself wrote: witness), x/superfluid (identity), one "
+                  "concentrated pool (identity). New reachable-state invariants proved for this: incentives RefsWF + coverage, superfluid unique intermediary "
+                  "accounts, CL positions id-sorted.",
                   "NOT proved, OBSERVED by engine det on the sampled histories only: independence of Go map iteration seeds, goroutine schedules, GC and wall clock "
                   "(two executions in one process + one in another OS process), and export/import of the whole app.",
                   "Tied by T1: every range over a map in app/, x/, osmoutils/, ante/, wasmbinding/ (non-test) is enumerated from the current source; a range whose body is not "
@@ -403,7 +426,9 @@ PROPS = {
                   "imported nodes are started with x-crisis-skip-assert-invariants (F19d); every registered invariant is evaluated after InitChain instead.",
                   "app hashes are not compared across an import (IAVL versions differ); the imported node whose raw KV stores were synchronised with the exporter must reproduce "
                   "every tx result, gas, event, module export, query and raw store (staking HistoricalInfo, which embeds the app hash, excepted)."],
-  "explanation": "34 theorems (mechanisms, distributionInfo/TakerFeeSkim instances, export/import incl. negative witnesses, the T1 obligations) + engine det: per block app hash, "
+  "explanation": "65 theorems (mechanisms, distributionInfo/TakerFeeSkim instances, export/import of mint/epochs/sum-tree/accumulator/lockup/incentives/twap/superfluid/"
+                 "CL pool incl. negative witnesses, the T1 obligations) + the module engines lockup/incentives/twap/superfluid/cl running the op exportimport (REAL "
+                 "ExportGenesis -> module store wiped -> REAL InitGenesis, history continues, every later state line compared with the Lean model) + engine det: per block app hash, "
                  "tx code/codespace/data/log/gas and ordered events of two in-process executions and a second process; export -> import -> per-module genesis, keeper queries, "
                  "invariants, remaining history; probes for the audited order-dependent sites.",
  },
@@ -411,7 +436,7 @@ PROPS = {
   "modules": ["OsmoVerif.Props.C01"],
   "min_theorems": 25,
   "fingerprints": ["CL.*"],
-  "engines": [{"name": "cl", "kind": "app", "n": {"quick": 2000, "thorough": 30000}, "shards": {"quick": 4, "thorough": 16}},
+  "engines": [{"name": "cl", "kind": "app", "n": {"quick": 2000, "thorough": 30000}, "shards": {"quick": 4, "thorough": 16}, "env": NO_EXPORT_IMPORT},
               {"name": "clmath", "kind": "pure", "n": {"quick": 20000, "thorough": 300000}, "shards": {"quick": 2, "thorough": 16}}],
   "rule": "cl: histories on one concentrated pool through the real keeper by three accounts (create/add/partial+full withdraw/swaps of both kinds and directions from 1 unit to "
           "draining/collects/incentive creation/time advances/transfers); the solvency oracle (everybody claims and withdraws everything on a discarded branch; claimable sums <= "
